@@ -93,7 +93,10 @@ def discharge(ob, tier, timeout, extra=()):
             return dict(verdict=logs[-1][1] if logs else 'error', solver=None,
                         seconds=sum(x[2] for x in logs), log=logs)
         return dict(verdict=res['verdict'], solver=res['solver'], seconds=res['seconds'], log=logs)
-    r = solve.check(asserts, solvers=order, timeout=timeout)
+    if theory == 'strings2':
+        r = solve.check_race(asserts, solvers=('z3', 'cvc5'), timeout=timeout)
+    else:
+        r = solve.check(asserts, solvers=order, timeout=timeout)
     return dict(verdict=r['verdict'], solver=r['solver'], seconds=r['seconds'], log=r['log'])
 
 
@@ -176,79 +179,87 @@ def verify_task(payload):
         for site in k.get('sites', []):
             if site.get('contract') == cname:
                 regions.setdefault(k['id'], dict(k, clause=site['clause']))
-    # discharge (threads: the work is in solver subprocesses)
-    with cf.ThreadPoolExecutor(max_workers=getattr(con, 'threads', 4)) as pool:
-        futs = {pool.submit(discharge, ob, tier, timeout): ob for ob in obs}
-        for f in cf.as_completed(futs):
-            futs[f].result = f.result()
+    # discharge + triage of refutations (threads: the work is in solver subprocesses)
     assumptions = set()
     for rec in recs:
         assumptions |= set(rec.ghost.get('assumptions', ()))
         for u in rec.ghost.get('used_contracts', ()):
             assumptions.add('callee by contract: %s' % u)
     out['assumptions'] = sorted(assumptions)
-    for ob in obs:
-        r = ob.result
-        base = ob.name.split('#p')[0]
+
+    def process(ob):
+        """-> (entry | None, canary verdict | None, undecided | None, violation | None, known ids, errors)"""
+        r = discharge(ob, tier, timeout)
+        ob.result = r
         entry = dict(name=ob.name, kind=ob.kind, verdict=r['verdict'], solver=r['solver'],
                      seconds=round(r['seconds'], 3), log=r['log'])
         if ob.kind == 'canary':
-            out['canaries'].setdefault(base, []).append(r['verdict'])
-            continue
-        out['obligations'].append(entry)
+            return None, r['verdict'], None, None, [], []
         if r['verdict'] == 'unsat':
-            continue
+            return entry, None, None, None, [], []
         if r['verdict'] == 'disagreement':
-            out['errors'].append('solver disagreement on %s: %s' % (ob.name, r['log']))
-            continue
+            return entry, None, None, None, [], ['solver disagreement on %s: %s' % (ob.name, r['log'])]
         if r['verdict'] == 'unsupported':
             entry['reason'] = ob.meta.get('reason')
-            out['undecided'].append(dict(name=ob.name, reason='unsupported: %s' % ob.meta.get('reason')))
-            continue
+            return entry, None, dict(name=ob.name, reason='unsupported: %s' % ob.meta.get('reason')), None, [], []
         if r['verdict'] != 'sat':
-            out['undecided'].append(dict(name=ob.name, reason='solver: %s %s' % (r['verdict'], r['log'])))
-            continue
-        # refuted -------------------------------------------------------------------
+            return entry, None, dict(name=ob.name, reason='solver: %s %s' % (r['verdict'], r['log'])), None, [], []
         clause = ob.meta.get('clause')
         listed = [k for k in regions.values() if k.get('clause') == clause]
-        handled = False
+        extra = []
         if listed:
-            # retry outside the listed regions (region predicates are contract functions)
-            extra = []
             try:
                 for k in listed:
-                    fn = con.regions[k['id']]
-                    extra.append(tm.mk_not(region_term(con, ob, fn)))
+                    extra.append(tm.mk_not(region_term(con, ob, con.regions[k['id']])))
                 r2 = discharge(ob, 'quick', timeout, extra)
-                entry['outside_known_regions'] = r2['verdict']
-                if r2['verdict'] == 'unsat':
-                    handled = True
-                    entry['verdict'] = 'unsat-outside-known-regions'
-                    for k in listed:
-                        if k['id'] not in [x['id'] for x in out['known']]:
-                            out['known'].append(k)
-                elif r2['verdict'] != 'sat':
-                    handled = True
-                    out['undecided'].append(dict(name=ob.name, reason='outside known regions: %s' % r2['verdict']))
             except Exception as ex:
-                out['errors'].append('region evaluation failed for %s: %r' % (ob.name, ex))
-                handled = True
-            if not handled:
-                status, cargs, nat, sout = counterexample(con, ob, extra)
-        if not handled and not listed:
-            status, cargs, nat, sout = counterexample(con, ob)
-        if handled:
-            continue
+                return entry, None, None, None, [], ['region evaluation failed for %s: %r' % (ob.name, ex)]
+            entry['outside_known_regions'] = r2['verdict']
+            if r2['verdict'] == 'unsat':
+                entry['verdict'] = 'unsat-outside-known-regions'
+                return entry, None, None, None, listed, []
+            if r2['verdict'] != 'sat':
+                return entry, None, dict(name=ob.name, reason='outside known regions: %s' % r2['verdict']), None, [], []
+        status, cargs, nat, sout = counterexample(con, ob, extra)
         if ob.kind == 'S':
-            out['undecided'].append(dict(name=ob.name, reason='PROOF-BROKEN supporting obligation refuted (%s)' % status,
-                                         proof_broken=True, args=codec.enc(cargs) if cargs else None))
             entry['verdict'] = 'refuted-supporting'
-            continue
+            return entry, None, dict(name=ob.name, reason='PROOF-BROKEN supporting obligation refuted (%s)' % status,
+                                     proof_broken=True, args=codec.enc(cargs) if cargs else None), None, [], []
         viol = dict(obligation=ob.name, contract=cname, clause=clause, status=status,
                     args=codec.enc(cargs) if cargs is not None else None,
                     observed=codec.enc(describe_native(nat)) if nat else None,
                     solver_output=sout, source=out['source'])
-        out['violations'].append(viol)
+        return entry, None, None, viol, [], []
+
+    with cf.ThreadPoolExecutor(max_workers=getattr(con, 'threads', 8)) as pool:
+        futs = [(ob, pool.submit(process, ob)) for ob in obs]
+        cfuts = [(rec, pool.submit(_concolic, con, rec)) for rec in recs]
+        for ob, f in futs:
+            base = ob.name.split('#p')[0]
+            try:
+                entry, canary, und, viol, kn, errs = f.result()
+            except Exception as ex:
+                out['errors'].append('triage crashed on %s: %s' % (ob.name, traceback.format_exc()[-800:]))
+                continue
+            if canary is not None:
+                out['canaries'].setdefault(base, []).append(canary)
+            if entry:
+                out['obligations'].append(entry)
+            if und:
+                out['undecided'].append(und)
+            if viol:
+                out['violations'].append(viol)
+            for k in kn:
+                if k['id'] not in [x['id'] for x in out['known']]:
+                    out['known'].append(k)
+            out['errors'].extend(errs)
+        cc = {}
+        for rec, f in cfuts:
+            k, d = f.result()
+            cc[k] = cc.get(k, 0) + 1
+            if k == 'mismatch':
+                out['errors'].append('engine/CPython mismatch in %s: %s' % (cname, d))
+        out['concolic'] = cc
     # canaries must be refuted on at least one path
     for base, vs in out['canaries'].items():
         if 'sat' not in vs:
@@ -256,20 +267,16 @@ def verify_task(payload):
     for cl in con.canaries:
         if not any(b.endswith('/' + cl.name) for b in out['canaries']):
             out['errors'].append('canary %s produced no obligation' % cl.name)
-    # concolic cross-check
-    cc = {}
-    for rec in recs:
-        try:
-            k, d = C.concolic_check(con, rec)
-        except Exception as ex:
-            k, d = 'skipped', 'concolic crashed: %r' % ex
-        cc[k] = cc.get(k, 0) + 1
-        if k == 'mismatch':
-            out['errors'].append('engine/CPython mismatch in %s: %s' % (cname, d))
-    out['concolic'] = cc
     out['wall_s'] = round(time.time() - t0, 2)
     out['solver_s'] = round(sum(o['seconds'] for o in out['obligations']), 3)
     return out
+
+
+def _concolic(con, rec):
+    try:
+        return C.concolic_check(con, rec)
+    except Exception as ex:
+        return 'skipped', 'concolic crashed: %r' % ex
 
 
 def region_term(con, ob, fn):
